@@ -19,10 +19,11 @@ Inductive case :=
 Definition tab_fun (t : list (str * val)) (s : str) : val :=
   match lookup s t with Some v => v | None => VStr s end.
 
-Definition model_tables (gk : str) (ms : list member) (full : bool) : four (option table) :=
+(* fixkey = false: the tree as it is; true: with fixes/C07-hyphen-key-default-override.patch *)
+Definition model_tables (fixkey : bool) (gk : str) (ms : list member) (full : bool) : four (option table) :=
   {| q_dotted := Some (as_dotted_m gk (mnorm ms));
-     q_dcls := as_dataclass_m (dashes ++ gk) ms;
-     q_cls := as_class_group_m full gk ms;
+     q_dcls := as_dataclass_m fixkey (dashes ++ gk) ms;
+     q_cls := as_class_group_m fixkey full gk ms;
      q_inner := Some (as_inner_parser_m (dashes ++ gk) (mnorm ms)) |}.
 
 Definition four_all2 {A B} (f : A -> B -> bool) (a : four A) (b : four B) : bool :=
@@ -45,17 +46,17 @@ Definition norm_agrees (ms nms : list member) : bool := list_eqb member_eqb nms 
 
 Definition no_input : input := {| i_env := []; i_entry := EArgs [] |}.
 
-Definition judge1_raw (c : case) : verdict :=
+Definition judge1_raw (fixkey : bool) (c : case) : verdict :=
   match c with
   | CTable gk ms nms full obs =>
-      {| v_model := norm_agrees ms nms && four_all2 (option_eqb table_eqb) (model_tables gk ms full) obs;
+      {| v_model := norm_agrees ms nms && four_all2 (option_eqb table_eqb) (model_tables fixkey gk ms full) obs;
          v_class := finding_class_m (fun s => VStr s) gk ms no_input;
          v_spec := tables_agree_opt obs |}
   | CRun gk ms nms full inp pvt jlt obs =>
       let pv := tab_fun pvt in
       let jl := tab_fun jlt in
       {| v_model := norm_agrees ms nms
-                    && four_all2 (fun T o => run_agrees pv jl T inp o) (model_tables gk ms full) obs;
+                    && four_all2 (fun T o => run_agrees pv jl T inp o) (model_tables fixkey gk ms full) obs;
          v_class := finding_class_m pv gk ms inp;
          v_spec := answers_agree obs |}
   end.
@@ -66,5 +67,13 @@ Definition strict (v : verdict) : verdict :=
   if negb (v_model v) && negb (v_spec v) && negb (N.eqb (v_class v) 0)
   then {| v_model := false; v_class := 99; v_spec := false |} else v.
 
-Definition judge1 (c : case) : verdict := strict (judge1_raw c).
+(* The judge follows the tree: a case is judged against the faithful model of the tree as it is; when that model does
+   not reproduce the observation but the model of the tree repaired by fixes/C07-hyphen-key-default-override.patch
+   does, against that one (same guard: class 8 stays outside the proved statement, but with the repair applied the
+   spec holds there, so nothing is reported; drop the finding's open: line then). *)
+Definition judge1 (c : case) : verdict :=
+  let v := strict (judge1_raw false c) in
+  if v_model v then v else
+  let w := strict (judge1_raw true c) in
+  if v_model w then w else v.
 Definition judge (cs : list case) := judge_all judge1 cs.
